@@ -11,6 +11,8 @@ import (
 type Tree struct {
 	nodes []node
 	hsum  uint64
+	// Parser's verdict on the source the tree was built from.
+	err error
 }
 
 // Representation argument of modifier or helper.
